@@ -128,7 +128,8 @@ fn mount_outcome(img: &Image, strict: bool, poke: bool) -> (Value, Value) {
                     usej.insert("hang".into(), json!(true));
                 }
             }
-            let _ = catch_unwind(AssertUnwindSafe(|| std::mem::forget(fs)));
+            // (dropping writes at most to this throw-away copy of the image; forgetting it would leak the device with every attempt)
+            let _ = catch_unwind(AssertUnwindSafe(|| drop(fs)));
             (res, Value::Object(usej))
         }
     }
@@ -453,7 +454,7 @@ pub fn dirs(spec: &Value, w: &mut dyn std::io::Write) -> u64 {
                     }
                 }
             }
-            std::mem::forget(fs);
+            drop(fs);
             res["ents"] = json!(ents);
             res
         }));
